@@ -1,12 +1,1562 @@
-//! C08 — not built yet (stub; see DESIGN.md §5).
-use crate::ctx::Tier;
-use serde_json::Value;
+//! C08 — bulk numeric bodies are bit-identical to the generic encoding and decode exactly.
+//!
+//! Bounded-exhaustive input enumeration against the real `repe` code:
+//!
+//! * part `msg`  — per (element type, length, rotation): builder vs generic serde
+//!   encoding (a), the 2x2 encoder/decoder matrix (b), streamed vs built frame (c),
+//!   wrong header body format (e);
+//! * part `route` — per (type, length, query length, receive-buffer misalignment,
+//!   client, route, dispatch): requests built exactly as `Client`/`AsyncClient`
+//!   build them, placed at chosen offsets of an 8-aligned backing buffer, driven
+//!   through `Router::get(path)` + `handle_view` / `handle`; the response is decoded
+//!   the way the same client decodes it (b, d), and a handler observes whether its
+//!   slice points into the request buffer (d: borrowed iff aligned);
+//! * part `wrong` — every (sent type, route type) pair and every wrong header body
+//!   format against the bulk decoders (e);
+//! * part `tcp` — a thin sweep of the real `Client`/`AsyncClient` helpers against
+//!   `Server`/`AsyncServer` over loopback.
+//!
+//! The oracle is the slice itself (bit images), `beve::to_vec` / `beve::from_slice`
+//! as "the generic encoding", and an independent parse of the aligned layout for
+//! the expected payload address.
 
-pub fn run(_tier: Tier) -> ! {
-    eprintln!("MACHINERY-ERROR property=C08 check not built yet");
-    std::process::exit(2)
+#[path = "c08_types.rs"]
+mod types;
+
+use crate::ctx::{Ctx, Samples, Tier};
+use crate::frames;
+use repe::server::{HandlerErased, Router, TypedResponse};
+use repe::{BodyFormat, CallContext, Complex, Header, Message, MessageView, QueryFormat};
+use serde_json::{Value, json};
+use std::cell::Cell;
+use std::collections::BTreeMap;
+use std::panic::{AssertUnwindSafe, catch_unwind};
+use std::sync::Arc;
+use types::*;
+
+// ---------------------------------------------------------------- bounds
+
+const SMALL_MAX: usize = 64;
+/// tcp cases sort after every in-memory case when picking the recorded representative
+const TCP_ORDER: u64 = 1 << 60;
+const SPECIAL_LENS: [usize; 9] = [127, 128, 255, 256, 4095, 4096, 16383, 16384, 65537];
+const Q_MAX: usize = 64;
+const REQ_ID: u64 = 0x0102_0304_0506_0708;
+
+fn path_for(q: usize) -> String {
+    if q == 0 { String::new() } else { format!("/{}", "p".repeat(q - 1)) }
 }
 
-pub fn replay(_case: &Value) -> Result<(), String> {
-    Err("no replay for C08 yet".into())
+// ---------------------------------------------------------------- counters
+
+macro_rules! counters {
+    ($($name:ident),* $(,)?) => {
+        #[allow(non_camel_case_types, clippy::upper_case_acronyms)]
+        #[derive(Clone, Copy)]
+        enum C { $($name),*, _N }
+        const C_NAMES: &[&str] = &[$(stringify!($name)),*];
+    };
+}
+counters!(
+    msg_cases,
+    route_cases,
+    wrong_cases,
+    tcp_cases,
+    impl_calls,
+    bulk_eq_generic_checked,
+    cross_bulk_to_generic_ok,
+    cross_generic_to_bulk_ok,
+    same_encoder_roundtrips_ok,
+    streamed_frames_equal,
+    streamed_frames_size_prefix_2_or_more_bytes,
+    wire_paths_equal,
+    route_view_dispatches,
+    route_owned_dispatches,
+    route_accepted_identical,
+    route_either_rejected,
+    route_either_accepted_identical,
+    aligned_to_ref_cases,
+    aligned_layout_unparsed,
+    aligned_borrowed,
+    aligned_borrowed_nonzero_padding,
+    aligned_copied_fallback,
+    aligned_owned_dispatch_borrowed,
+    aligned_owned_dispatch_copied,
+    regular_form_copied,
+    regular_form_borrowed,
+    empty_slice_borrowed,
+    wrong_type_rejected_bulk_decoder,
+    wrong_type_rejected_slice_route,
+    wrong_type_generic_route_rejected,
+    wrong_type_generic_route_coerced,
+    wrong_format_rejected_bulk_decoder,
+    wrong_format_rejected_slice_route,
+    wrong_format_generic_route_rejected,
+    wrong_format_generic_route_identical,
+    known_class_hits,
+    panics,
+    tcp_ok_identical,
+    tcp_rejected,
+);
+
+struct Fail {
+    order: u64,
+    what: String,
+    case: Value,
+}
+
+struct W {
+    c: [u64; C::_N as usize],
+    by_type: [u64; 14],
+    fails: BTreeMap<String, Fail>,
+    /// (entry point, element type) pairs observed for the empty-vector class
+    empty_class: BTreeMap<String, u64>,
+    backing: Vec<u64>,
+    order: u64,
+    /// harness-side problems (never a verdict)
+    machinery: Vec<String>,
+}
+
+impl W {
+    fn new() -> W {
+        W {
+            c: [0; C::_N as usize],
+            by_type: [0; 14],
+            fails: BTreeMap::new(),
+            empty_class: BTreeMap::new(),
+            backing: Vec::new(),
+            order: 0,
+            machinery: Vec::new(),
+        }
+    }
+    fn inc(&mut self, c: C) {
+        self.c[c as usize] += 1;
+    }
+    fn add(&mut self, c: C, n: u64) {
+        self.c[c as usize] += n;
+    }
+    fn fail(&mut self, key: String, what: impl FnOnce() -> String, case: &Value) {
+        let order = self.order;
+        match self.fails.get(&key) {
+            Some(f) if f.order <= order => {}
+            _ => {
+                self.fails.insert(key, Fail { order, what: what(), case: case.clone() });
+            }
+        }
+    }
+    fn merge(&mut self, o: W) {
+        for i in 0..self.c.len() {
+            self.c[i] += o.c[i];
+        }
+        for i in 0..14 {
+            self.by_type[i] += o.by_type[i];
+        }
+        for (k, f) in o.fails {
+            match self.fails.get(&k) {
+                Some(mine) if mine.order <= f.order => {}
+                _ => {
+                    self.fails.insert(k, f);
+                }
+            }
+        }
+        self.machinery.extend(o.machinery);
+        for (k, n) in o.empty_class {
+            *self.empty_class.entry(k).or_default() += n;
+        }
+    }
+}
+
+fn merge_all(into: &mut W, ws: Vec<W>) {
+    for w in ws {
+        into.merge(w);
+    }
+}
+
+/// Run one case, converting a panic of the code under test into a violation.
+fn guarded(w: &mut W, part: &str, case: &Value, f: impl FnOnce(&mut W)) {
+    IN_GUARD.with(|g| g.set(true));
+    let r = catch_unwind(AssertUnwindSafe(|| f(w)));
+    IN_GUARD.with(|g| g.set(false));
+    if let Err(p) = r {
+        let msg = p
+            .downcast_ref::<String>()
+            .cloned()
+            .or_else(|| p.downcast_ref::<&str>().map(|s| s.to_string()))
+            .unwrap_or_else(|| "non-string panic".into());
+        w.inc(C::panics);
+        w.fail(format!("C08:panic:{part}"), || format!("panic in case {case}: {msg}"), case);
+    }
+}
+
+const KNOWN_EMPTY: &str = "C08:cross-decode:generic->bulk:len=0:";
+
+// ---------------------------------------------------------------- part msg
+
+fn base_builder(q: usize) -> repe::message::MessageBuilder {
+    Message::builder().id(REQ_ID).query_str(&path_for(q)).query_format(QueryFormat::JsonPointer)
+}
+
+/// The three buffered ways of producing the frame of one built message.
+fn built_frames(m: &Message) -> (Vec<u8>, Vec<u8>, Vec<u8>) {
+    let mut via_write = Vec::new();
+    repe::write_message(&mut via_write, m).expect("write to Vec");
+    (m.to_vec(), via_write, m.clone().into_wire_bytes())
+}
+
+fn check_wire_paths(w: &mut W, m: &Message, what: &str, case: &Value) -> Vec<u8> {
+    let (a, b, c) = built_frames(m);
+    w.add(C::impl_calls, 3);
+    if a != b || a != c {
+        w.fail(
+            format!("C08:built-frame:paths-disagree:{what}"),
+            || {
+                format!(
+                    "to_vec / write_message / into_wire_bytes give different frames for the {what} message: {} / {} / {} ({case})",
+                    hex(&a),
+                    hex(&b),
+                    hex(&c)
+                )
+            },
+            case,
+        );
+    } else {
+        w.inc(C::wire_paths_equal);
+    }
+    a
+}
+
+fn msg_case<T: Elem>(w: &mut W, n: usize, rot: usize, q: usize) {
+    let case = json!({"part": "msg", "type": T::NAME, "len": n, "rot": rot, "q": q});
+    w.inc(C::msg_cases);
+    w.by_type[T::IDX] += 1;
+    let c2 = case.clone();
+    guarded(w, "msg", &c2, |w| {
+        let v: Vec<T> = make(n, rot);
+        let img = image(&v);
+        let bulk = base_builder(q).body_typed_slice(&v).build();
+        let generic_body = beve::to_vec(&v).expect("generic encode");
+        let generic = base_builder(q).body_beve(&v).expect("body_beve").build();
+        w.add(C::impl_calls, 3);
+
+        // (a) non-empty: bulk bytes == generic serde bytes of the same Vec
+        if bulk.header.body_format != BodyFormat::Beve as u16 {
+            w.fail(
+                "C08:bulk-body:format-code".into(),
+                || format!("body_typed_slice set body_format {} ({case})", bulk.header.body_format),
+                &case,
+            );
+        }
+        if n > 0 {
+            w.inc(C::bulk_eq_generic_checked);
+            if bulk.body != generic_body || generic.body != generic_body {
+                w.fail(
+                    "C08:bulk-vs-generic-bytes".into(),
+                    || {
+                        format!(
+                            "{}[{n}] rot {rot}: bulk body {} != generic {}",
+                            T::NAME,
+                            hex(&bulk.body),
+                            hex(&generic_body)
+                        )
+                    },
+                    &case,
+                );
+            }
+        }
+        // the payload of the bulk body is the little-endian image of the slice
+        if !bulk.body.ends_with(&img) {
+            w.fail(
+                "C08:bulk-body:payload-image".into(),
+                || format!("{}[{n}]: bulk body {} does not end with the element image {}", T::NAME, hex(&bulk.body), hex(&img)),
+                &case,
+            );
+        }
+
+        // (b) encoder x decoder matrix, through owned messages re-parsed from wire bytes
+        let bulk_frame = check_wire_paths(w, &bulk, "bulk", &case);
+        let generic_frame = generic.to_vec();
+        for (enc, frame) in [("bulk", &bulk_frame), ("generic", &generic_frame)] {
+            let m = match Message::from_slice(frame) {
+                Ok(m) => m,
+                Err(e) => {
+                    w.fail(format!("C08:frame-reparse:{enc}"), || format!("built frame does not parse: {e} ({case})"), &case);
+                    continue;
+                }
+            };
+            w.add(C::impl_calls, 3);
+            // bulk decoder
+            match m.decode_typed_slice::<T>() {
+                Ok(d) if bytes_of(&d) == bytes_of(&v) && d.len() == n => {
+                    if enc == "generic" {
+                        w.inc(C::cross_generic_to_bulk_ok)
+                    } else {
+                        w.inc(C::same_encoder_roundtrips_ok)
+                    }
+                }
+                Ok(d) => w.fail(
+                    format!("C08:decode:{enc}->bulk:bits"),
+                    || format!("{}[{n}] rot {rot}: Message::decode_typed_slice of the {enc} encoding differs: {}", T::NAME, first_diff(&d, &v)),
+                    &case,
+                ),
+                Err(e) => {
+                    let key = if enc == "generic" && n == 0 {
+                        w.inc(C::known_class_hits);
+                        *w.empty_class.entry(format!("Message::decode_typed_slice|{}", T::NAME)).or_default() += 1;
+                        format!("{KNOWN_EMPTY}Message::decode_typed_slice")
+                    } else if enc == "generic" {
+                        "C08:cross-decode:generic->bulk:len>0:Message::decode_typed_slice".to_string()
+                    } else {
+                        "C08:decode:bulk->bulk:error".to_string()
+                    };
+                    w.fail(
+                        key,
+                        || format!("{}[{n}]: Message::decode_typed_slice rejects the {enc} encoding {}: {e}", T::NAME, hex(&m.body)),
+                        &case,
+                    );
+                }
+            }
+            // generic decoders: Message::beve_body and beve::from_slice on the view body
+            let view = MessageView::from_slice(frame).expect("view");
+            for (dec, r) in [
+                ("Message::beve_body", m.beve_body::<Vec<T>>().map_err(|e| e.to_string())),
+                ("beve::from_slice(view.body)", beve::from_slice::<Vec<T>>(view.body).map_err(|e| e.to_string())),
+            ] {
+                match r {
+                    Ok(d) if bytes_of(&d) == bytes_of(&v) && d.len() == n => {
+                        if enc == "bulk" {
+                            w.inc(C::cross_bulk_to_generic_ok)
+                        } else {
+                            w.inc(C::same_encoder_roundtrips_ok)
+                        }
+                    }
+                    Ok(d) => w.fail(
+                        format!("C08:decode:{enc}->generic:bits"),
+                        || format!("{}[{n}] rot {rot}: {dec} of the {enc} encoding differs: {}", T::NAME, first_diff(&d, &v)),
+                        &case,
+                    ),
+                    Err(e) => w.fail(
+                        format!("C08:cross-decode:{enc}->generic:error"),
+                        || format!("{}[{n}]: {dec} rejects the {enc} encoding {}: {e}", T::NAME, hex(&m.body)),
+                        &case,
+                    ),
+                }
+            }
+        }
+
+        // (c) streamed frame == built frame
+        let mut h = Header::new();
+        h.id = REQ_ID;
+        h.query_format = QueryFormat::JsonPointer as u16;
+        let mut streamed = Vec::new();
+        let r = repe::write_message_typed_slice(&mut streamed, h, path_for(q).as_bytes(), &v);
+        w.inc(C::impl_calls);
+        if let Err(e) = r {
+            w.fail("C08:streamed:error".into(), || format!("write_message_typed_slice failed: {e} ({case})"), &case);
+        } else if streamed != bulk_frame {
+            w.fail(
+                "C08:streamed-vs-built:typed".into(),
+                || format!("{}[{n}] q={q}: streamed frame {} != built frame {}", T::NAME, hex(&streamed), hex(&bulk_frame)),
+                &case,
+            );
+        } else {
+            w.inc(C::streamed_frames_equal);
+            if n >= 64 {
+                w.inc(C::streamed_frames_size_prefix_2_or_more_bytes);
+            }
+            // independent frame oracle: one whole frame carrying exactly the bulk body
+            match frames::parse_one(&streamed) {
+                Ok(Some((f, used))) if used == streamed.len() && f.body == bulk.body && f.h.body_format == 1 && f.h.id == REQ_ID => {}
+                other => w.fail(
+                    "C08:streamed:frame-oracle".into(),
+                    || format!("streamed frame is not one consistent frame with the bulk body: {:?} ({case})", other.map(|o| o.map(|(f, u)| (f.h, u)))),
+                    &case,
+                ),
+            }
+        }
+
+        // (e) wrong header body format -> bulk decoder refuses
+        for code in [0u16, 2, 3, 0x7777] {
+            for (enc, src) in [("bulk", &bulk), ("generic", &generic)] {
+                let mut m = src.clone();
+                m.header.body_format = code;
+                w.inc(C::impl_calls);
+                match m.decode_typed_slice::<T>() {
+                    Err(_) => w.inc(C::wrong_format_rejected_bulk_decoder),
+                    Ok(d) => w.fail(
+                        "C08:wrong-format-accepted:Message::decode_typed_slice".into(),
+                        || format!("{}[{n}]: decode_typed_slice accepted a {enc} body under body_format {code:#x} and returned {} elements", T::NAME, d.len()),
+                        &case,
+                    ),
+                }
+            }
+        }
+    });
+}
+
+fn complex_case<T: CElem>(w: &mut W, n: usize, rot: usize, q: usize)
+where
+    Complex<T>: serde::Serialize + serde::de::DeserializeOwned,
+{
+    let case = json!({"part": "complex", "type": T::CNAME, "len": n, "rot": rot, "q": q});
+    w.inc(C::msg_cases);
+    w.by_type[T::CIDX] += 1;
+    let c2 = case.clone();
+    guarded(w, "complex", &c2, |w| {
+        let v: Vec<Complex<T>> = make_complex(n, rot);
+        let img = image_complex(&v);
+        let bulk = base_builder(q).body_complex_slice(&v).build();
+        let generic_body = beve::to_vec(&v).expect("generic encode");
+        let generic = base_builder(q).body_beve(&v).expect("body_beve").build();
+        w.add(C::impl_calls, 3);
+        if n > 0 {
+            w.inc(C::bulk_eq_generic_checked);
+            if bulk.body != generic_body {
+                w.fail(
+                    "C08:bulk-vs-generic-bytes:complex".into(),
+                    || format!("{}[{n}] rot {rot}: bulk body {} != generic {}", T::CNAME, hex(&bulk.body), hex(&generic_body)),
+                    &case,
+                );
+            }
+        }
+        if bulk.header.body_format != BodyFormat::Beve as u16 || !bulk.body.ends_with(&img) {
+            w.fail(
+                "C08:bulk-body:payload-image:complex".into(),
+                || format!("{}[{n}]: complex bulk body {} / format {} is not the interleaved element image", T::CNAME, hex(&bulk.body), bulk.header.body_format),
+                &case,
+            );
+        }
+        let bulk_frame = check_wire_paths(w, &bulk, "complex", &case);
+        let generic_frame = generic.to_vec();
+        for (enc, frame) in [("bulk", &bulk_frame), ("generic", &generic_frame)] {
+            let m = Message::from_slice(frame).expect("reparse");
+            w.add(C::impl_calls, 2);
+            match m.decode_complex_slice::<T>() {
+                Ok(d) if bytes_of(&d) == bytes_of(&v) && d.len() == n => {
+                    if enc == "generic" {
+                        w.inc(C::cross_generic_to_bulk_ok)
+                    } else {
+                        w.inc(C::same_encoder_roundtrips_ok)
+                    }
+                }
+                Ok(d) => w.fail(
+                    format!("C08:decode:{enc}->bulk:bits:complex"),
+                    || format!("{}[{n}] rot {rot}: decode_complex_slice of the {enc} encoding differs: {}", T::CNAME, first_diff(&d, &v)),
+                    &case,
+                ),
+                Err(e) => {
+                    let key = if enc == "generic" && n == 0 {
+                        w.inc(C::known_class_hits);
+                        *w.empty_class.entry(format!("Message::decode_complex_slice|{}", T::CNAME)).or_default() += 1;
+                        format!("{KNOWN_EMPTY}Message::decode_complex_slice")
+                    } else if enc == "generic" {
+                        "C08:cross-decode:generic->bulk:len>0:Message::decode_complex_slice".to_string()
+                    } else {
+                        "C08:decode:bulk->bulk:error:complex".to_string()
+                    };
+                    w.fail(key, || format!("{}[{n}]: decode_complex_slice rejects the {enc} encoding {}: {e}", T::CNAME, hex(&m.body)), &case);
+                }
+            }
+            match m.beve_body::<Vec<Complex<T>>>() {
+                Ok(d) if bytes_of(&d) == bytes_of(&v) && d.len() == n => {
+                    if enc == "bulk" {
+                        w.inc(C::cross_bulk_to_generic_ok)
+                    } else {
+                        w.inc(C::same_encoder_roundtrips_ok)
+                    }
+                }
+                Ok(d) => w.fail(
+                    format!("C08:decode:{enc}->generic:bits:complex"),
+                    || format!("{}[{n}] rot {rot}: beve_body of the {enc} encoding differs: {}", T::CNAME, first_diff(&d, &v)),
+                    &case,
+                ),
+                Err(e) => w.fail(
+                    format!("C08:cross-decode:{enc}->generic:error:complex"),
+                    || format!("{}[{n}]: beve_body rejects the {enc} encoding {}: {e}", T::CNAME, hex(&m.body)),
+                    &case,
+                ),
+            }
+        }
+        // (c)
+        let mut h = Header::new();
+        h.id = REQ_ID;
+        h.query_format = QueryFormat::JsonPointer as u16;
+        let mut streamed = Vec::new();
+        let r = repe::write_message_complex_slice(&mut streamed, h, path_for(q).as_bytes(), &v);
+        w.inc(C::impl_calls);
+        if let Err(e) = r {
+            w.fail("C08:streamed:error:complex".into(), || format!("write_message_complex_slice failed: {e} ({case})"), &case);
+        } else if streamed != bulk_frame {
+            w.fail(
+                "C08:streamed-vs-built:complex".into(),
+                || format!("{}[{n}] q={q}: streamed frame {} != built frame {}", T::CNAME, hex(&streamed), hex(&bulk_frame)),
+                &case,
+            );
+        } else {
+            w.inc(C::streamed_frames_equal);
+            if n >= 64 {
+                w.inc(C::streamed_frames_size_prefix_2_or_more_bytes);
+            }
+        }
+        // (e) wrong header format, wrong component type, scalar/complex confusion
+        for code in [0u16, 2, 3, 0x7777] {
+            let mut m = bulk.clone();
+            m.header.body_format = code;
+            w.inc(C::impl_calls);
+            match m.decode_complex_slice::<T>() {
+                Err(_) => w.inc(C::wrong_format_rejected_bulk_decoder),
+                Ok(d) => w.fail(
+                    "C08:wrong-format-accepted:Message::decode_complex_slice".into(),
+                    || format!("{}[{n}]: decode_complex_slice accepted body_format {code:#x} ({} elements)", T::CNAME, d.len()),
+                    &case,
+                ),
+            }
+        }
+        struct Other<'a> {
+            w: &'a mut W,
+            m: &'a Message,
+            own: &'static str,
+            case: &'a Value,
+        }
+        impl ScalarVisitor for Other<'_> {
+            fn visit<R: Elem>(&mut self) {
+                self.w.add(C::impl_calls, 2);
+                // complex body read as a scalar typed array of any type
+                match self.m.decode_typed_slice::<R>() {
+                    Err(_) => self.w.inc(C::wrong_type_rejected_bulk_decoder),
+                    Ok(d) => self.w.fail(
+                        "C08:wrong-type-accepted:Message::decode_typed_slice".into(),
+                        || format!("complex {} body {} decoded as {} x{}", self.own, hex(&self.m.body), R::NAME, d.len()),
+                        self.case,
+                    ),
+                }
+                // complex body read as complex of another component type
+                if R::NAME != self.own {
+                    match self.m.decode_complex_slice::<R>() {
+                        Err(_) => self.w.inc(C::wrong_type_rejected_bulk_decoder),
+                        Ok(d) => self.w.fail(
+                            "C08:wrong-type-accepted:Message::decode_complex_slice".into(),
+                            || format!("complex<{}> body {} decoded as complex<{}> x{}", self.own, hex(&self.m.body), R::NAME, d.len()),
+                            self.case,
+                        ),
+                    }
+                }
+            }
+        }
+        visit_all(&mut Other { w, m: &bulk, own: T::NAME, case: &case });
+    });
+}
+
+// ---------------------------------------------------------------- part route
+
+thread_local! {
+    /// (slice pointer, slice length, number of handler invocations) of the last dispatch
+    static OBS: Cell<(usize, usize, u32)> = const { Cell::new((0, 0, 0)) };
+}
+
+fn observe<T>(xs: &[T]) {
+    OBS.with(|o| {
+        let (_, _, calls) = o.get();
+        o.set((xs.as_ptr() as usize, xs.len(), calls + 1));
+    });
+}
+
+const ROUTES: [&str; 3] = ["with_typed_slice", "with_typed_slice_ref", "with_typed"];
+const CLIENTS: [&str; 3] = ["bulk", "aligned", "generic"];
+
+struct Env {
+    routers: [Router; 3],
+}
+
+fn env<T: Elem>(paths: &[String]) -> Env {
+    let mut slice = Router::new();
+    let mut slice_ref = Router::new();
+    let mut typed = Router::new();
+    for p in paths {
+        slice = slice.with_typed_slice::<T, T, _>(p, |xs: Vec<T>| {
+            observe(&xs);
+            Ok(xs)
+        });
+        slice_ref = slice_ref.with_typed_slice_ref::<T, T, _>(p, |xs: &[T]| {
+            observe(xs);
+            Ok(xs.to_vec())
+        });
+        typed = typed.with_typed::<Vec<T>, Vec<T>, _>(p, |xs: Vec<T>| {
+            observe(&xs);
+            Ok(TypedResponse::beve(xs))
+        });
+    }
+    Env { routers: [slice, slice_ref, typed] }
+}
+
+/// Request exactly as `Client::call_with_body_and_timeout` builds it for the three helpers.
+fn client_request<T: Elem>(client: usize, path: &str, v: &[T]) -> Message {
+    let b = Message::builder().id(REQ_ID).query_str(path).query_format_code(QueryFormat::JsonPointer as u16);
+    match client {
+        0 => b.body_typed_slice(v),
+        1 => b.body_aligned_typed_slice(v),
+        _ => b.body_beve(&v.to_vec()).expect("body_beve"),
+    }
+    .build()
+}
+
+/// Independent parse of the aligned typed-array layout
+/// `0x5C | numeric header | SIZE | PADDING_LENGTH | PADDING | DATA`:
+/// returns (offset of DATA inside the body, element count, padding length).
+fn aligned_layout(body: &[u8]) -> Option<(usize, u64, usize)> {
+    if body.len() < 4 || body[0] != 0x5C {
+        return None;
+    }
+    let wdt = 1usize << (body[2] & 3);
+    if body.len() < 2 + wdt + 1 {
+        return None;
+    }
+    let mut raw = [0u8; 8];
+    raw[..wdt].copy_from_slice(&body[2..2 + wdt]);
+    let n = u64::from_le_bytes(raw) >> 2;
+    let pad = body[2 + wdt] as usize;
+    Some((2 + wdt + 1 + pad, n, pad))
+}
+
+enum Outcome {
+    Rejected(String),
+    Response(Message),
+}
+
+fn outcome(r: Result<Message, repe::RepeError>) -> Outcome {
+    match r {
+        Err(e) => Outcome::Rejected(format!("handler error: {e}")),
+        Ok(m) if m.header.ec != 0 => Outcome::Rejected(format!("error response ec={} {:?}", m.header.ec, String::from_utf8_lossy(&m.body))),
+        Ok(m) => Outcome::Response(m),
+    }
+}
+
+/// Decode a success response the way the given client helper does.
+fn client_decode<T: Elem>(client: usize, resp: &Message) -> Result<Vec<T>, String> {
+    if client == 2 {
+        // decode_typed_response: by body format
+        match BodyFormat::try_from(resp.header.body_format) {
+            Ok(BodyFormat::Beve) => beve::from_slice::<Vec<T>>(&resp.body).map_err(|e| e.to_string()),
+            Ok(BodyFormat::Json) | Ok(BodyFormat::Utf8) => serde_json::from_slice::<Vec<T>>(&resp.body).map_err(|e| e.to_string()),
+            _ => Err("response body is neither JSON nor BEVE".into()),
+        }
+    } else {
+        resp.decode_typed_slice::<T>().map_err(|e| e.to_string())
+    }
+}
+
+/// One (type, len, rot, q, client) group: all routes x all placements.
+/// `mis_filter`: None = every placement (8 misalignments + owned dispatch).
+#[allow(clippy::too_many_arguments)]
+fn route_group<T: Elem>(w: &mut W, env: &Env, n: usize, rot: usize, q: usize, client: usize, only: Option<(usize, usize)>) {
+    let v: Vec<T> = make(n, rot);
+    let path = path_for(q);
+    let align = std::mem::align_of::<T>();
+    let req = client_request(client, &path, &v);
+    let frame = {
+        let mut f = Vec::new();
+        repe::write_message(&mut f, &req).expect("write to Vec");
+        f
+    };
+    w.add(C::impl_calls, 2);
+    let base_case = json!({"part": "route", "type": T::NAME, "len": n, "rot": rot, "q": q, "client": CLIENTS[client]});
+    if client == 1 {
+        check_wire_paths(w, &req, "aligned", &base_case);
+    }
+    // independent location of the payload inside an aligned body (None for the regular forms)
+    let layout = if client == 1 {
+        let l = aligned_layout(&req.body).filter(|(off, cnt, _)| {
+            *cnt as usize == n && req.body.len() == off + std::mem::size_of_val(&v[..]) && req.body[*off..] == *bytes_of(&v)
+        });
+        if l.is_none() {
+            // the harness cannot locate the payload: a machinery problem at the end of the
+            // run, unless the decoders themselves already disagree (then that is the verdict)
+            w.inc(C::aligned_layout_unparsed);
+        }
+        l
+    } else {
+        None
+    };
+    let words = (frame.len() + 8) / 8 + 2;
+    if w.backing.len() < words {
+        w.backing.resize(words, 0);
+    }
+    for route in 0..3 {
+        for place in 0..9usize {
+            if let Some((r, p)) = only {
+                if r != route || p != place {
+                    continue;
+                }
+            }
+            w.order += 1;
+            w.inc(C::route_cases);
+            w.by_type[T::IDX] += 1;
+            let dispatch = if place < 8 { "handle_view" } else { "handle" };
+            let case = json!({"part": "route", "type": T::NAME, "len": n, "rot": rot, "q": q, "client": CLIENTS[client],
+                "route": ROUTES[route], "place": place});
+            let c2 = case.clone();
+            let mut backing = std::mem::take(&mut w.backing);
+            guarded(w, "route", &c2, |w| {
+                let Some(h): Option<Arc<dyn HandlerErased>> = env.routers[route].get(&path) else {
+                    w.fail("C08:route:not-found".into(), || format!("Router::get({path:?}) found nothing"), &case);
+                    return;
+                };
+                OBS.with(|o| o.set((0, 0, 0)));
+                // ---- dispatch
+                let owned_req;
+                let (res, buf_range, body_addr) = if place < 8 {
+                    // SAFETY: backing is a live Vec<u64> (8-aligned) with room for place + frame.len() bytes
+                    let bytes = unsafe { std::slice::from_raw_parts_mut(backing.as_mut_ptr() as *mut u8, backing.len() * 8) };
+                    let dst = &mut bytes[place..place + frame.len()];
+                    dst.copy_from_slice(&frame);
+                    let dst: &[u8] = dst;
+                    let view = match MessageView::from_slice(dst) {
+                        Ok(v) => v,
+                        Err(e) => {
+                            w.fail("C08:route:view-parse".into(), || format!("MessageView::from_slice failed on a client frame: {e} ({case})"), &case);
+                            return;
+                        }
+                    };
+                    w.inc(C::route_view_dispatches);
+                    let start = dst.as_ptr() as usize;
+                    let body_addr = view.body.as_ptr() as usize;
+                    let ctx = CallContext::detached(&path);
+                    (h.handle_view(&view, &ctx), (start, start + dst.len()), body_addr)
+                } else {
+                    owned_req = match Message::from_slice(&frame) {
+                        Ok(m) => m,
+                        Err(e) => {
+                            w.fail("C08:route:frame-parse".into(), || format!("Message::from_slice failed on a client frame: {e} ({case})"), &case);
+                            return;
+                        }
+                    };
+                    w.inc(C::route_owned_dispatches);
+                    let start = owned_req.body.as_ptr() as usize;
+                    (h.handle(&owned_req), (start, start + owned_req.body.len()), start)
+                };
+                w.inc(C::impl_calls);
+                let (ptr, plen, calls) = OBS.with(|o| o.get());
+                let out = outcome(res);
+
+                // ---- verdict on the result
+                let must_accept = client != 1 || route == 1;
+                match &out {
+                    Outcome::Rejected(why) => {
+                        if must_accept {
+                            let key = if n == 0 && client == 2 && route < 2 {
+                                w.inc(C::known_class_hits);
+                                *w.empty_class.entry(format!("{}:{dispatch}|{}", ROUTES[route], T::NAME)).or_default() += 1;
+                                format!("{KNOWN_EMPTY}{}:{dispatch}", ROUTES[route])
+                            } else {
+                                format!("C08:route:{}->{}:{dispatch}:request-rejected", CLIENTS[client], ROUTES[route])
+                            };
+                            w.fail(
+                                key,
+                                || format!("{}[{n}] q={q} place={place}: {} request body {} to a {} route was rejected: {why}", T::NAME, CLIENTS[client], hex(&req.body), ROUTES[route]),
+                                &case,
+                            );
+                        } else {
+                            w.inc(C::route_either_rejected);
+                        }
+                    }
+                    Outcome::Response(resp) => {
+                        w.inc(C::impl_calls);
+                        if resp.header.id != REQ_ID {
+                            w.fail(
+                                format!("C08:route:{}:response-id", ROUTES[route]),
+                                || format!("response id {:#x} for request {REQ_ID:#x} ({case})", resp.header.id),
+                                &case,
+                            );
+                        }
+                        match client_decode::<T>(client, resp) {
+                            Ok(d) if bytes_of(&d) == bytes_of(&v) && d.len() == n => {
+                                if must_accept {
+                                    w.inc(C::route_accepted_identical)
+                                } else {
+                                    w.inc(C::route_either_accepted_identical)
+                                }
+                            }
+                            Ok(d) => w.fail(
+                                format!("C08:route:{}->{}:{dispatch}:elements", CLIENTS[client], ROUTES[route]),
+                                || format!("{}[{n}] rot {rot} q={q} place={place}: echoed elements differ: {}", T::NAME, first_diff(&d, &v)),
+                                &case,
+                            ),
+                            Err(e) => {
+                                let key = if n == 0 && client != 2 && route == 2 {
+                                    // the serde route answers with the generic encoding of an empty Vec
+                                    w.inc(C::known_class_hits);
+                                    *w.empty_class.entry(format!("Message::decode_typed_slice(response of with_typed)|{}", T::NAME)).or_default() += 1;
+                                    format!("{KNOWN_EMPTY}Message::decode_typed_slice")
+                                } else {
+                                    format!("C08:route:{}->{}:{dispatch}:response-decode-error", CLIENTS[client], ROUTES[route])
+                                };
+                                w.fail(
+                                    key,
+                                    || format!("{}[{n}] q={q} place={place}: the {} client cannot decode the {} route's response body {} (format {}): {e}", T::NAME, CLIENTS[client], ROUTES[route], hex(&resp.body), resp.header.body_format),
+                                    &case,
+                                );
+                            }
+                        }
+                    }
+                }
+
+                // ---- (d) borrowed iff aligned, observed by the `_ref` handler
+                if route == 1 && calls == 1 {
+                    if plen != n {
+                        w.fail("C08:route:handler-slice-len".into(), || format!("handler saw {plen} elements, sent {n} ({case})"), &case);
+                    }
+                    let size = plen * std::mem::size_of::<T>();
+                    let in_buf = ptr >= buf_range.0 && ptr + size <= buf_range.1;
+                    if in_buf && ptr % align != 0 {
+                        w.fail(
+                            "C08:borrow:misaligned-reference".into(),
+                            || format!("{}: handler got a &[T] at {ptr:#x} inside the request buffer, not {align}-aligned ({case})", T::NAME),
+                            &case,
+                        );
+                    }
+                    if client == 1 {
+                        w.inc(C::aligned_to_ref_cases);
+                        if let Some((off, _, pad)) = layout {
+                            let payload = body_addr + off;
+                            let expect = payload % align == 0;
+                            if in_buf != expect {
+                                w.fail(
+                                    format!("C08:borrow:{dispatch}:expected-{}", if expect { "borrowed" } else { "copied" }),
+                                    || format!("{}[{n}] q={q} place={place}: payload address {payload:#x} (align {align}) but the handler slice {ptr:#x} is {} the request buffer {:#x}..{:#x}", T::NAME, if in_buf { "inside" } else { "outside" }, buf_range.0, buf_range.1),
+                                    &case,
+                                );
+                            }
+                            if place < 8 {
+                                // a frame that lands on an align_of::<T>() boundary must be borrowable:
+                                // this is what the padding for the 48 + query offset is for
+                                if place % align == 0 && !in_buf {
+                                    w.fail(
+                                        "C08:borrow:aligned-frame-not-borrowed".into(),
+                                        || format!("{}[{n}] q={q}: frame placed at misalignment {place} (aligned for {align}) but the payload at frame offset {} was copied, body {}", T::NAME, 48 + q + off, hex(&req.body[..req.body.len().min(16)])),
+                                        &case,
+                                    );
+                                }
+                                if in_buf {
+                                    w.inc(C::aligned_borrowed);
+                                    if pad != 0 {
+                                        w.inc(C::aligned_borrowed_nonzero_padding);
+                                    }
+                                    if n == 0 {
+                                        w.inc(C::empty_slice_borrowed);
+                                    }
+                                } else {
+                                    w.inc(C::aligned_copied_fallback);
+                                }
+                            } else if in_buf {
+                                w.inc(C::aligned_owned_dispatch_borrowed);
+                            } else {
+                                w.inc(C::aligned_owned_dispatch_copied);
+                            }
+                        }
+                    } else if in_buf {
+                        w.inc(C::regular_form_borrowed);
+                    } else {
+                        w.inc(C::regular_form_copied);
+                    }
+                }
+            });
+            w.backing = std::mem::take(&mut backing);
+        }
+    }
+}
+
+// ---------------------------------------------------------------- part wrong
+
+#[derive(Clone)]
+struct Sent {
+    ty: &'static str,
+    complex: bool,
+    client: usize,
+    n: usize,
+    msg: Message,
+}
+
+const WRONG_PATH: &str = "/wrong";
+const WRONG_LENS: [usize; 9] = [0, 1, 2, 3, 4, 8, 16, 23, 64];
+
+struct BuildSent<'a>(&'a mut Vec<Sent>);
+impl ScalarVisitor for BuildSent<'_> {
+    fn visit<T: Elem>(&mut self) {
+        for n in WRONG_LENS {
+            for client in 0..3 {
+                if client == 2 && n == 0 {
+                    continue; // the generic empty encoding names no element type
+                }
+                let v: Vec<T> = make(n, n % 3);
+                self.0.push(Sent { ty: T::NAME, complex: false, client, n, msg: client_request(client, WRONG_PATH, &v) });
+            }
+        }
+    }
+}
+
+fn build_sent() -> Vec<Sent> {
+    let mut out = Vec::new();
+    visit_all(&mut BuildSent(&mut out));
+    fn cx<T: CElem>(out: &mut Vec<Sent>)
+    where
+        Complex<T>: serde::Serialize,
+    {
+        for n in WRONG_LENS {
+            let v: Vec<Complex<T>> = make_complex(n, 1);
+            let b = || Message::builder().id(REQ_ID).query_str(WRONG_PATH).query_format_code(QueryFormat::JsonPointer as u16);
+            out.push(Sent { ty: T::CNAME, complex: true, client: 0, n, msg: b().body_complex_slice(&v).build() });
+            if n > 0 {
+                out.push(Sent { ty: T::CNAME, complex: true, client: 2, n, msg: b().body_beve(&v).expect("body_beve").build() });
+            }
+        }
+    }
+    cx::<f32>(&mut out);
+    cx::<f64>(&mut out);
+    out
+}
+
+/// Dispatch one message to one route at placement 0 / 1 (view) or owned.
+fn dispatch(env: &Env, route: usize, path: &str, msg: &Message, place: usize, backing: &mut Vec<u64>) -> (Outcome, u32) {
+    let h = env.routers[route].get(path).expect("route registered");
+    OBS.with(|o| o.set((0, 0, 0)));
+    let res = if place < 8 {
+        let frame = msg.to_vec();
+        let words = (frame.len() + 8) / 8 + 2;
+        if backing.len() < words {
+            backing.resize(words, 0);
+        }
+        // SAFETY: as in route_group
+        let bytes = unsafe { std::slice::from_raw_parts_mut(backing.as_mut_ptr() as *mut u8, backing.len() * 8) };
+        bytes[place..place + frame.len()].copy_from_slice(&frame);
+        let view = MessageView::from_slice(&bytes[place..place + frame.len()]).expect("view");
+        h.handle_view(&view, &CallContext::detached(path))
+    } else {
+        h.handle(msg)
+    };
+    let calls = OBS.with(|o| o.get().2);
+    (outcome(res), calls)
+}
+
+fn wrong_type_case<R: Elem>(w: &mut W, env: &Env, s: &Sent, sent_idx: usize) {
+    if !s.complex && s.ty == R::NAME {
+        return;
+    }
+    let case = json!({"part": "wrong-type", "recv": R::NAME, "sent_index": sent_idx, "sent": s.ty, "len": s.n, "client": CLIENTS[s.client]});
+    w.inc(C::wrong_cases);
+    w.by_type[R::IDX] += 1;
+    w.order += 1;
+    let c2 = case.clone();
+    let mut backing = std::mem::take(&mut w.backing);
+    guarded(w, "wrong-type", &c2, |w| {
+        w.inc(C::impl_calls);
+        match s.msg.decode_typed_slice::<R>() {
+            Err(_) => w.inc(C::wrong_type_rejected_bulk_decoder),
+            Ok(d) => w.fail(
+                "C08:wrong-type-accepted:Message::decode_typed_slice".into(),
+                || format!("{} body of {}[{}] ({}) decoded as {} x{}: {}", CLIENTS[s.client], s.ty, s.n, hex(&s.msg.body), R::NAME, d.len(), hex(bytes_of(&d))),
+                &case,
+            ),
+        }
+        for route in 0..3 {
+            for place in [0usize, 1, 8] {
+                let dispatch_name = if place < 8 { "handle_view" } else { "handle" };
+                w.inc(C::impl_calls);
+                let (out, calls) = dispatch(env, route, WRONG_PATH, &s.msg, place, &mut backing);
+                match (route, out) {
+                    (0 | 1, Outcome::Rejected(_)) => {
+                        w.inc(C::wrong_type_rejected_slice_route);
+                    }
+                    (0 | 1, Outcome::Response(resp)) => w.fail(
+                        format!("C08:wrong-type-accepted:{}:{dispatch_name}", ROUTES[route]),
+                        || format!("{} body of {}[{}] ({}) was accepted by a {}<{}> route (handler calls {calls}); response body {}", CLIENTS[s.client], s.ty, s.n, hex(&s.msg.body), ROUTES[route], R::NAME, hex(&resp.body)),
+                        &case,
+                    ),
+                    (_, Outcome::Rejected(_)) => w.inc(C::wrong_type_generic_route_rejected),
+                    (_, Outcome::Response(_)) => w.inc(C::wrong_type_generic_route_coerced),
+                }
+            }
+        }
+    });
+    w.backing = backing;
+}
+
+fn wrong_format_case<T: Elem>(w: &mut W, env: &Env, n: usize, client: usize, code: u16) {
+    let case = json!({"part": "wrong-format", "type": T::NAME, "len": n, "client": CLIENTS[client], "format": code});
+    w.inc(C::wrong_cases);
+    w.by_type[T::IDX] += 1;
+    w.order += 1;
+    let c2 = case.clone();
+    let mut backing = std::mem::take(&mut w.backing);
+    guarded(w, "wrong-format", &c2, |w| {
+        let v: Vec<T> = make(n, 2);
+        let mut msg = client_request(client, WRONG_PATH, &v);
+        msg.header.body_format = code;
+        for route in 0..3 {
+            for place in [0usize, 3, 8] {
+                let dispatch_name = if place < 8 { "handle_view" } else { "handle" };
+                w.inc(C::impl_calls);
+                let (out, _calls) = dispatch(env, route, WRONG_PATH, &msg, place, &mut backing);
+                match (route, out) {
+                    (0 | 1, Outcome::Rejected(_)) => {
+                        w.inc(C::wrong_format_rejected_slice_route);
+                    }
+                    (0 | 1, Outcome::Response(resp)) => w.fail(
+                        format!("C08:wrong-format-accepted:{}:{dispatch_name}", ROUTES[route]),
+                        || format!("{}[{n}] {} body under body_format {code:#x} was accepted by a {} route; response body {}", T::NAME, CLIENTS[client], ROUTES[route], hex(&resp.body)),
+                        &case,
+                    ),
+                    (_, Outcome::Rejected(_)) => w.inc(C::wrong_format_generic_route_rejected),
+                    (_, Outcome::Response(resp)) => match beve::from_slice::<Vec<T>>(&resp.body) {
+                        Ok(d) if bytes_of(&d) == bytes_of(&v) => w.inc(C::wrong_format_generic_route_identical),
+                        _ => w.fail(
+                            format!("C08:wrong-format-reinterpreted:with_typed:{dispatch_name}"),
+                            || format!("{}[{n}] {} body under body_format {code:#x}: serde route answered different elements, body {}", T::NAME, CLIENTS[client], hex(&resp.body)),
+                            &case,
+                        ),
+                    },
+                }
+            }
+        }
+    });
+    w.backing = backing;
+}
+
+// ---------------------------------------------------------------- part tcp
+
+const TCP_LENS: [usize; 6] = [0, 1, 3, 64, 257, 4096];
+const TCP_QS: [usize; 9] = [1, 2, 3, 4, 5, 6, 7, 8, 9];
+
+fn tcp_paths() -> Vec<String> {
+    let mut v = Vec::new();
+    for r in 0..3 {
+        for q in TCP_QS {
+            // distinct per route kind, same length class: "/<r>ppp"
+            v.push(format!("/{r}{}", "p".repeat(q)));
+        }
+    }
+    v
+}
+
+fn tcp_router<T: Elem>() -> Router {
+    let mut router = Router::new();
+    for (i, p) in tcp_paths().iter().enumerate() {
+        router = match i / TCP_QS.len() {
+            0 => router.with_typed_slice::<T, T, _>(p, |xs: Vec<T>| Ok(xs)),
+            1 => router.with_typed_slice_ref::<T, T, _>(p, |xs: &[T]| Ok(xs.to_vec())),
+            _ => router.with_typed::<Vec<T>, Vec<T>, _>(p, |xs: Vec<T>| Ok(TypedResponse::beve(xs))),
+        };
+    }
+    router
+}
+
+/// Judge one call result of a real client helper.
+#[allow(clippy::too_many_arguments)]
+fn tcp_judge<T: Elem>(w: &mut W, transport: &str, client: usize, route: usize, n: usize, q: usize, v: &[T], res: Result<Vec<T>, repe::RepeError>) {
+    let case = json!({"part": "tcp", "transport": transport, "type": T::NAME, "len": n, "q": q, "client": CLIENTS[client], "route": ROUTES[route]});
+    w.inc(C::tcp_cases);
+    w.by_type[T::IDX] += 1;
+    w.order = TCP_ORDER + (((T::IDX * 8192 + n) * 128 + q) * 16 + client * 4 + route) as u64 * 2 + (transport != "Client/Server") as u64;
+    w.inc(C::impl_calls);
+    let must_accept = client != 1 || route == 1;
+    match res {
+        Ok(d) if bytes_of(&d) == bytes_of(v) && d.len() == n => w.inc(C::tcp_ok_identical),
+        Ok(d) => w.fail(
+            format!("C08:tcp:{transport}:{}->{}:elements", CLIENTS[client], ROUTES[route]),
+            || format!("{}[{n}] q={q}: {}", T::NAME, first_diff(&d, v)),
+            &case,
+        ),
+        Err(e) => {
+            w.inc(C::tcp_rejected);
+            let server_side = matches!(e, repe::RepeError::ServerError { .. });
+            if matches!(e, repe::RepeError::Io(_)) {
+                w.fail(format!("C08:tcp:{transport}:io"), || format!("transport failure: {e} ({case})"), &case);
+            } else if must_accept {
+                let key = if n == 0 && client == 2 && route < 2 && server_side {
+                    w.inc(C::known_class_hits);
+                    *w.empty_class.entry(format!("{}:handle_view(over {transport})|{}", ROUTES[route], T::NAME)).or_default() += 1;
+                    format!("{KNOWN_EMPTY}{}:handle_view", ROUTES[route])
+                } else if n == 0 && client != 2 && route == 2 && !server_side {
+                    w.inc(C::known_class_hits);
+                    *w.empty_class.entry(format!("Message::decode_typed_slice(response of with_typed over {transport})|{}", T::NAME)).or_default() += 1;
+                    format!("{KNOWN_EMPTY}Message::decode_typed_slice")
+                } else {
+                    format!("C08:tcp:{transport}:{}->{}:error", CLIENTS[client], ROUTES[route])
+                };
+                w.fail(key, || format!("{}[{n}] q={q} over {transport}: {} client against a {} route failed: {e}", T::NAME, CLIENTS[client], ROUTES[route]), &case);
+            }
+        }
+    }
+}
+
+struct TcpSweep<'a> {
+    w: &'a mut W,
+    rt: &'a tokio::runtime::Runtime,
+    only: Option<&'a Value>,
+}
+
+impl ScalarVisitor for TcpSweep<'_> {
+    fn visit<T: Elem>(&mut self) {
+        let w = &mut *self.w;
+        let rt = self.rt;
+        let paths = tcp_paths();
+        let t = std::time::Duration::from_secs(10);
+        // blocking pair
+        let server = repe::Server::new(tcp_router::<T>());
+        let listener = server.listen("127.0.0.1:0").expect("bind");
+        let addr = listener.local_addr().expect("addr");
+        std::thread::spawn(move || {
+            let _ = server.serve(listener);
+        });
+        // async pair
+        let (aaddr, _guard) = rt.block_on(async {
+            let l = repe::AsyncServer::listen("127.0.0.1:0").await.expect("bind");
+            let a = l.local_addr().expect("addr");
+            (a, tokio::spawn(repe::AsyncServer::new(tcp_router::<T>()).serve(l)))
+        });
+        let connect = || repe::Client::connect(addr).expect("connect to the blocking server");
+        let aconnect = || rt.block_on(repe::AsyncClient::connect(aaddr)).expect("connect to the async server");
+        let mut client = connect();
+        let mut aclient = aconnect();
+        for n in TCP_LENS {
+            let v: Vec<T> = make(n, n % 5);
+            for (pi, p) in paths.iter().enumerate() {
+                let route = pi / TCP_QS.len();
+                let q = p.len();
+                for cl in 0..3 {
+                    for transport in ["Client/Server", "AsyncClient/AsyncServer"] {
+                        if let Some(o) = self.only {
+                            if o["len"] != json!(n) || o["q"] != json!(q) || o["client"] != json!(CLIENTS[cl]) || o["route"] != json!(ROUTES[route]) || o["transport"] != json!(transport) {
+                                continue;
+                            }
+                        }
+                        let call = |client: &repe::Client, aclient: &repe::AsyncClient| -> Result<Vec<T>, repe::RepeError> {
+                            if transport == "Client/Server" {
+                                match cl {
+                                    0 => client.call_typed_slice_with_timeout(p, &v, t),
+                                    1 => client.call_typed_slice_aligned_with_timeout(p, &v, t),
+                                    _ => client.call_typed_beve_with_timeout(p, &v, t),
+                                }
+                            } else {
+                                rt.block_on(async {
+                                    match cl {
+                                        0 => aclient.call_typed_slice_with_timeout(p, &v, t).await,
+                                        1 => aclient.call_typed_slice_aligned_with_timeout(p, &v, t).await,
+                                        _ => aclient.call_typed_beve_with_timeout(p, &v, t).await,
+                                    }
+                                })
+                            }
+                        };
+                        let mut res = call(&client, &aclient);
+                        if let Err(repe::RepeError::Io(e)) = &res {
+                            // transport failure (timeout, reset): re-run once on fresh connections.
+                            // Reproducible -> judged below; not reproducible -> harness nondeterminism.
+                            let first = e.to_string();
+                            client = connect();
+                            aclient = aconnect();
+                            res = call(&client, &aclient);
+                            if !matches!(res, Err(repe::RepeError::Io(_))) {
+                                w.machinery.push(format!("transport failure over {transport} did not reproduce on a fresh connection: {first}"));
+                            }
+                        }
+                        let c = json!({"part": "tcp"});
+                        let mut r = Some(res);
+                        guarded(w, "tcp", &c, |w| tcp_judge::<T>(w, transport, cl, route, n, q, &v, r.take().unwrap()));
+                    }
+                }
+            }
+        }
+    }
+}
+
+// ---------------------------------------------------------------- enumeration
+
+struct Bounds {
+    /// part msg lengths
+    lens: Vec<usize>,
+    /// part route lengths
+    route_lens: Vec<usize>,
+    /// part msg: lengths up to which every rotation is used (first `big_rots` above)
+    msg_all_rot_upto: usize,
+    big_rots: usize,
+    /// part route: lengths up to which every rotation is used (one rotation, (len+q)%|set|, above)
+    route_all_rot_upto: usize,
+}
+
+fn bounds(tier: Tier) -> Bounds {
+    match tier {
+        Tier::Quick => {
+            let mut lens: Vec<usize> = (0..=SMALL_MAX).collect();
+            lens.extend_from_slice(&SPECIAL_LENS);
+            Bounds { route_lens: lens.clone(), lens, msg_all_rot_upto: 256, big_rots: 2, route_all_rot_upto: 8 }
+        }
+        Tier::Thorough => {
+            let mut lens: Vec<usize> = (0..=4096).collect();
+            lens.extend_from_slice(&[16383, 16384, 65537]);
+            let mut route_lens: Vec<usize> = (0..=4096).collect();
+            route_lens.extend_from_slice(&[16383, 16384, 65535, 65536, 65537]);
+            Bounds { lens, route_lens, msg_all_rot_upto: usize::MAX, big_rots: usize::MAX, route_all_rot_upto: SMALL_MAX }
+        }
+    }
+}
+
+struct MsgSweep<'a> {
+    total: &'a mut W,
+    b: &'a Bounds,
+}
+impl ScalarVisitor for MsgSweep<'_> {
+    fn visit<T: Elem>(&mut self) {
+        let b = self.b;
+        let rots = rotations::<T>();
+        // (len, rot, q) list: every rotation at q = f(len, rot); rotation 0 at every q
+        let mut cases: Vec<(usize, usize, usize)> = Vec::new();
+        for &n in &b.lens {
+            let r_max = if n <= b.msg_all_rot_upto { rots } else { rots.min(b.big_rots) };
+            for r in 0..r_max {
+                cases.push((n, r, (n + 3 * r) % (Q_MAX + 1)));
+            }
+            if n <= 256 {
+                for q in 0..=Q_MAX {
+                    if q != n % (Q_MAX + 1) {
+                        cases.push((n, 0, q));
+                    }
+                }
+            }
+        }
+        // heavy first for load balance; the recorded representative is the minimal `order`
+        cases.sort_by_key(|c| std::cmp::Reverse(c.0));
+        let ws = crate::par::for_each_index(cases.len() as u64, 4, |_| W::new(), |w, i| {
+            let (n, r, q) = cases[i as usize];
+            w.order = ((n as u64) << 24) | ((r as u64) << 8) | q as u64;
+            msg_case::<T>(w, n, r, q);
+        });
+        merge_all(self.total, ws);
+    }
+}
+
+fn complex_sweep<T: CElem>(total: &mut W, b: &Bounds)
+where
+    Complex<T>: serde::Serialize + serde::de::DeserializeOwned,
+{
+    let rots = rotations::<T>();
+    let mut cases: Vec<(usize, usize, usize)> = Vec::new();
+    for &n in &b.lens {
+        let r_max = if n <= b.msg_all_rot_upto { rots } else { rots.min(b.big_rots) };
+        for r in 0..r_max {
+            cases.push((n, r, (n + 3 * r) % (Q_MAX + 1)));
+        }
+    }
+    cases.sort_by_key(|c| std::cmp::Reverse(c.0));
+    let ws = crate::par::for_each_index(cases.len() as u64, 4, |_| W::new(), |w, i| {
+        let (n, r, q) = cases[i as usize];
+        w.order = ((n as u64) << 24) | ((r as u64) << 8) | q as u64;
+        complex_case::<T>(w, n, r, q);
+    });
+    merge_all(total, ws);
+}
+
+struct RouteSweep<'a> {
+    total: &'a mut W,
+    b: &'a Bounds,
+}
+impl ScalarVisitor for RouteSweep<'_> {
+    fn visit<T: Elem>(&mut self) {
+        let b = self.b;
+        let rots = rotations::<T>();
+        let paths: Vec<String> = (0..=Q_MAX).map(path_for).collect();
+        let env = env::<T>(&paths);
+        // groups: (len, rot, q, client)
+        let mut groups: Vec<(usize, usize, usize, usize)> = Vec::new();
+        for &n in &b.route_lens {
+            for q in 0..=Q_MAX {
+                for client in 0..3 {
+                    if n <= b.route_all_rot_upto {
+                        for r in 0..rots {
+                            groups.push((n, r, q, client));
+                        }
+                    } else {
+                        groups.push((n, (n + q) % rots, q, client));
+                    }
+                }
+            }
+        }
+        groups.sort_by_key(|g| std::cmp::Reverse(g.0));
+        let ws = crate::par::for_each_index(groups.len() as u64, 8, |_| W::new(), |w, i| {
+            let (n, r, q, client) = groups[i as usize];
+            w.order = ((n as u64) << 32) | ((q as u64) << 16) | ((r as u64) << 8) | ((client as u64) << 6);
+            route_group::<T>(w, &env, n, r, q, client, None);
+        });
+        merge_all(self.total, ws);
+    }
+}
+
+struct WrongSweep<'a> {
+    total: &'a mut W,
+    sent: &'a [Sent],
+}
+impl ScalarVisitor for WrongSweep<'_> {
+    fn visit<R: Elem>(&mut self) {
+        let env = env::<R>(&[WRONG_PATH.to_string()]);
+        let sent = self.sent;
+        let ws = crate::par::for_each_index(sent.len() as u64, 8, |_| W::new(), |w, i| {
+            w.order = i << 8;
+            wrong_type_case::<R>(w, &env, &sent[i as usize], i as usize);
+        });
+        merge_all(self.total, ws);
+        let mut w = W::new();
+        for n in [0usize, 1, 5, 23] {
+            for client in 0..3 {
+                for code in [0u16, 2, 3, 0x7777] {
+                    wrong_format_case::<R>(&mut w, &env, n, client, code);
+                }
+            }
+        }
+        self.total.merge(w);
+    }
+}
+
+// ---------------------------------------------------------------- run / replay
+
+thread_local! {
+    static IN_GUARD: Cell<bool> = const { Cell::new(false) };
+}
+
+/// Panics of the code under test (inside `guarded`) become violations and stay
+/// quiet; a panic anywhere else is a harness bug and is printed.
+fn silence_panics() {
+    std::panic::set_hook(Box::new(|info| {
+        if !IN_GUARD.with(|g| g.get()) {
+            eprintln!("MACHINERY-ERROR property=C08 harness panic: {info}");
+        }
+    }));
+}
+
+pub fn run(tier: Tier) -> ! {
+    let ctx = Ctx::new("C08", tier);
+    let b = bounds(tier);
+    let samples = Samples::new(6);
+    let default_hook = std::panic::take_hook();
+    silence_panics();
+    let mut total = W::new();
+    let (mut t_msg, mut t_route, mut t_wrong, mut t_tcp) = (0.0, 0.0, 0.0, 0.0);
+    let swept = catch_unwind(AssertUnwindSafe(|| {
+    let t0 = std::time::Instant::now();
+    visit_all(&mut MsgSweep { total: &mut total, b: &b });
+    complex_sweep::<f32>(&mut total, &b);
+    complex_sweep::<f64>(&mut total, &b);
+    t_msg = t0.elapsed().as_secs_f64();
+    visit_all(&mut RouteSweep { total: &mut total, b: &b });
+    t_route = t0.elapsed().as_secs_f64() - t_msg;
+    let sent = build_sent();
+    visit_all(&mut WrongSweep { total: &mut total, sent: &sent });
+    t_wrong = t0.elapsed().as_secs_f64() - t_msg - t_route;
+    {
+        let rt = tokio::runtime::Builder::new_multi_thread().worker_threads(2).enable_all().build().expect("runtime");
+        let mut w = W::new();
+        let mut sweep = TcpSweep { w: &mut w, rt: &rt, only: None };
+        let tcp_types: &[&'static str] = tier.pick(&["f64", "u8", "i16", "f16"][..], &SCALARS[..]);
+        for name in tcp_types {
+            visit_named(name, &mut sweep);
+        }
+        total.merge(w);
+        rt.shutdown_background();
+    }
+    t_tcp = t0.elapsed().as_secs_f64() - t_msg - t_route - t_wrong;
+    }));
+    std::panic::set_hook(default_hook);
+    if swept.is_err() {
+        ctx.machinery("the harness itself panicked (see the message above); no verdict");
+    }
+
+    // violations, in canonical order
+    let mut fails: Vec<(String, Fail)> = std::mem::take(&mut total.fails).into_iter().collect();
+    fails.sort_by(|a, b| a.0.cmp(&b.0));
+    // every recorded representative is re-executed from its case record before it is
+    // reported; a case that does not reproduce is harness nondeterminism, not a verdict
+    for (k, f) in &fails {
+        match replay(&f.case) {
+            Err(e) if e.contains(k.as_str()) => {}
+            other => ctx.machinery(format!("violation {k} did not reproduce when its case {} was re-executed: {other:?}", f.case)),
+        }
+    }
+    std::panic::set_hook(Box::new(|info| eprintln!("{info}")));
+    for (k, f) in fails {
+        ctx.violation(k, f.what, f.case);
+    }
+
+    let c = |x: C| total.c[x as usize];
+    // non-vacuity
+    if !ctx.has_violation() {
+        if c(C::aligned_layout_unparsed) > 0 {
+            ctx.machinery(format!("{} aligned request bodies do not have the layout marker|type|size|padlen|pad|image; the payload address cannot be predicted", c(C::aligned_layout_unparsed)));
+        }
+        if let Some(m) = total.machinery.first() {
+            ctx.machinery(format!("{m} ({} such events)", total.machinery.len()));
+        }
+        let need = [
+            C::bulk_eq_generic_checked,
+            C::cross_bulk_to_generic_ok,
+            C::cross_generic_to_bulk_ok,
+            C::streamed_frames_equal,
+            C::streamed_frames_size_prefix_2_or_more_bytes,
+            C::aligned_borrowed,
+            C::aligned_borrowed_nonzero_padding,
+            C::aligned_copied_fallback,
+            C::regular_form_copied,
+            C::empty_slice_borrowed,
+            C::route_either_rejected,
+            C::wrong_type_rejected_bulk_decoder,
+            C::wrong_type_rejected_slice_route,
+            C::wrong_format_rejected_bulk_decoder,
+            C::wrong_format_rejected_slice_route,
+            C::tcp_ok_identical,
+            C::tcp_rejected,
+        ];
+        for n in need {
+            if c(n) == 0 {
+                ctx.machinery(format!("vacuous exploration: counter {} is zero", C_NAMES[n as usize]));
+            }
+        }
+        for (i, n) in total.by_type.iter().enumerate() {
+            if *n == 0 {
+                ctx.machinery(format!("vacuous exploration: no case for element type {}", ALL_TYPES[i]));
+            }
+        }
+    }
+
+    samples.offer(|| json!({"part": "msg", "type": "f64", "len": 3, "rot": 14, "q": 9, "slice_bits": make::<f64>(3, 14).iter().map(|x| format!("{:#018x}", x.to_bits())).collect::<Vec<_>>()}));
+    samples.offer(|| json!({"part": "route", "type": "f64", "len": 2, "rot": 0, "q": 5, "client": "aligned", "route": "with_typed_slice_ref", "place": 0,
+        "request_body_hex": hex(&client_request::<f64>(1, &path_for(5), &make::<f64>(2, 0)).body)}));
+    samples.offer(|| json!({"part": "route", "type": "u16", "len": 0, "rot": 0, "q": 64, "client": "generic", "route": "with_typed_slice", "place": 7,
+        "request_body_hex": hex(&client_request::<u16>(2, &path_for(64), &[]).body)}));
+    samples.offer(|| json!({"part": "wrong-type", "recv": "f32", "sent": "f64", "len": 4, "client": "bulk"}));
+    samples.offer(|| json!({"part": "tcp", "transport": "Client/Server", "type": "f16", "len": 64, "q": 4, "client": "aligned", "route": "with_typed_slice_ref"}));
+
+    if c(C::wrong_type_generic_route_coerced) > 0 {
+        ctx.note(format!(
+            "informational: the serde route (with_typed::<Vec<T>>) accepted {} of {} bodies of another numeric element type by beve's value coercion; the bulk decoders rejected all {} (the rejection clause is judged on the bulk decoders only)",
+            c(C::wrong_type_generic_route_coerced),
+            c(C::wrong_type_generic_route_coerced) + c(C::wrong_type_generic_route_rejected),
+            c(C::wrong_type_rejected_slice_route) + c(C::wrong_type_rejected_bulk_decoder),
+        ));
+    }
+    let states = c(C::msg_cases) + c(C::route_cases) + c(C::wrong_cases) + c(C::tcp_cases);
+    let mut counters = serde_json::Map::new();
+    for (i, name) in C_NAMES.iter().enumerate() {
+        counters.insert((*name).into(), json!(total.c[i]));
+    }
+    let by_type: serde_json::Map<String, Value> = ALL_TYPES.iter().enumerate().map(|(i, n)| ((*n).to_string(), json!(total.by_type[i]))).collect();
+    let empty_matrix: serde_json::Map<String, Value> = total.empty_class.iter().map(|(k, n)| (k.clone(), json!(n))).collect();
+    let coverage = json!({
+        "states": states,
+        "transitions": c(C::impl_calls),
+        "traces_validated_against_impl": states,
+        "samples": samples.take(),
+        "exhaustive": true,
+        "rule": "part msg: every (element type, length, rotation of the type's boundary set) at query length (len+3*rot)%65, plus rotation 0 at every query length 0..=64 for len<=256; part route: every (type, length, query length, client in {bulk,aligned,generic}) x route in {with_typed_slice,with_typed_slice_ref,with_typed} x placement in {handle_view at misalignment 0..7 of an 8-aligned buffer, handle on an owned Message}; part wrong: every (sent type incl. complex, client form, length) x every other receiver type x 3 routes x 3 placements, and 4 wrong header body formats; part tcp: real Client/Server and AsyncClient/AsyncServer helpers",
+        "bound": {
+            "element_types": ALL_TYPES,
+            "lengths_msg": tier.pick(format!("0..={SMALL_MAX} and {SPECIAL_LENS:?}"), "0..=4096 and [16383, 16384, 65537]".to_string()),
+            "lengths_route": tier.pick(format!("0..={SMALL_MAX} and {SPECIAL_LENS:?}"), "0..=4096 and [16383, 16384, 65535, 65536, 65537]".to_string()),
+            "lengths_count": [b.lens.len(), b.route_lens.len()],
+            "rotations_msg": if b.big_rots == usize::MAX { "all rotations of the boundary set at every length".to_string() } else { format!("all rotations of the boundary set for len<={}, first {} for longer", b.msg_all_rot_upto, b.big_rots) },
+            "rotations_route": format!("all rotations for len<={}, rotation (len+q)%|set| above", b.route_all_rot_upto),
+            "query_lengths": format!("0..={Q_MAX}"),
+            "misalignments": "0..=7 (handle_view) + owned dispatch (handle)",
+            "wrong_type_lengths": WRONG_LENS,
+            "wrong_formats": [0, 2, 3, 0x7777],
+            "tcp": {"lengths": TCP_LENS, "path_lengths": TCP_QS.iter().map(|q| q + 2).collect::<Vec<_>>(), "types": tier.pick(4, 12)},
+        },
+        "alphabet": {"clients": CLIENTS, "routes": ROUTES, "boundary_set_sizes": {"unsigned": rotations::<u8>(), "signed": rotations::<i8>(), "float": rotations::<f32>()}},
+        "nonvacuity": counters,
+        "cases_by_type": by_type,
+        "empty_vector_class_by_entry_and_type": empty_matrix,
+        "phase_wall_s": {"msg": t_msg, "route": t_route, "wrong": t_wrong, "tcp": t_tcp},
+    });
+    ctx.finish(
+        "model_checking",
+        coverage,
+        &[
+            "\"the generic encoding\" is beve::to_vec / beve::from_slice (what body_beve, beve_body, with_typed and call_typed_beve use)",
+            "element values come from per-type boundary sets; other values are not tried (the bulk paths are value-independent copies, the serde paths are per-element)",
+            "i128/u128 and Complex of non-float components are outside the property's type list",
+            "little-endian host; an 8-aligned backing buffer stands for the connection's receive buffer",
+            "a serde (with_typed) route that accepts a body of another numeric type by value coercion is counted, not judged: the rejection clause is scoped to the bulk decoders",
+            "over TCP the receive-buffer address is the allocator's; borrowed-vs-copied is only judged in the in-memory part",
+        ],
+    )
+}
+
+struct ReplayOne<'a> {
+    case: &'a Value,
+    w: W,
+    sent: Option<Vec<Sent>>,
+}
+impl ScalarVisitor for ReplayOne<'_> {
+    fn visit<T: Elem>(&mut self) {
+        let c = self.case;
+        let u = |k: &str| c[k].as_u64().unwrap_or(0) as usize;
+        match c["part"].as_str().unwrap_or("") {
+            "msg" => msg_case::<T>(&mut self.w, u("len"), u("rot"), u("q")),
+            "route" => {
+                let paths: Vec<String> = (0..=Q_MAX).map(path_for).collect();
+                let env = env::<T>(&paths);
+                let client = CLIENTS.iter().position(|x| Some(*x) == c["client"].as_str()).unwrap_or(0);
+                let only = match (c["route"].as_str(), c.get("place").and_then(|p| p.as_u64())) {
+                    (Some(r), Some(p)) => ROUTES.iter().position(|x| *x == r).map(|r| (r, p as usize)),
+                    _ => None,
+                };
+                route_group::<T>(&mut self.w, &env, u("len"), u("rot"), u("q"), client, only);
+            }
+            "wrong-type" => {
+                let env = env::<T>(&[WRONG_PATH.to_string()]);
+                let sent = self.sent.take().unwrap_or_else(build_sent);
+                if let Some(s) = sent.get(u("sent_index")) {
+                    wrong_type_case::<T>(&mut self.w, &env, s, u("sent_index"));
+                }
+            }
+            "wrong-format" => {
+                let env = env::<T>(&[WRONG_PATH.to_string()]);
+                let client = CLIENTS.iter().position(|x| Some(*x) == c["client"].as_str()).unwrap_or(0);
+                wrong_format_case::<T>(&mut self.w, &env, u("len"), client, u("format") as u16);
+            }
+            _ => {}
+        }
+    }
+}
+
+pub fn replay(case: &Value) -> Result<(), String> {
+    silence_panics();
+    let part = case["part"].as_str().unwrap_or("");
+    let mut w = W::new();
+    match part {
+        "complex" => {
+            let u = |k: &str| case[k].as_u64().unwrap_or(0) as usize;
+            match case["type"].as_str() {
+                Some("c32") => complex_case::<f32>(&mut w, u("len"), u("rot"), u("q")),
+                Some("c64") => complex_case::<f64>(&mut w, u("len"), u("rot"), u("q")),
+                _ => return Err("unknown complex type".into()),
+            }
+        }
+        "tcp" => {
+            let rt = tokio::runtime::Builder::new_multi_thread().worker_threads(2).enable_all().build().map_err(|e| e.to_string())?;
+            let mut sweep = TcpSweep { w: &mut w, rt: &rt, only: Some(case) };
+            if !visit_named(case["type"].as_str().unwrap_or(""), &mut sweep) {
+                return Err("unknown type".into());
+            }
+            rt.shutdown_background();
+        }
+        "msg" | "route" | "wrong-type" | "wrong-format" => {
+            let ty = if part == "wrong-type" { case["recv"].as_str() } else { case["type"].as_str() };
+            let mut r = ReplayOne { case, w, sent: None };
+            if !visit_named(ty.unwrap_or(""), &mut r) {
+                return Err("unknown element type".into());
+            }
+            w = r.w;
+        }
+        _ => return Err(format!("unknown part {part:?}")),
+    }
+    if w.fails.is_empty() {
+        Ok(())
+    } else {
+        Err(w.fails.iter().map(|(k, f)| format!("{k}: {}", f.what)).collect::<Vec<_>>().join("\n"))
+    }
 }
